@@ -157,9 +157,9 @@ def run(ctx):
     ntypes_guess = 49
     for ty in range(ntypes_guess):
         for dt in range(4):
-            for c in (0.0, 1.0):
+            for c in ((1.0,) if quick else (0.0, 1.0)):
                 kcases.append((ty, dt, c, [0.5, -0.5, 1.0, -1.0, 1.0000000000000002, -1.0000000000000002, 3.0, -3.0]))
-    for _ in range(300 if quick else 3000):
+    for _ in range(200 if quick else 3000):
         ty = rng.randrange(ntypes_guess)
         dt = rng.randrange(4)
         c = rng.choice([0.0, -1.0, 1.0, 0.25, 1e-3, 7.5, math.inf, math.nan, rng.uniform(0, 3)])
@@ -392,7 +392,7 @@ def run(ctx):
            "       apply_cutoff c false 0%Z (v2l (if (k =? 6)%Z then snd r else fst r)).\n")
     # the kernels are tiny: a sample of the sensor evaluations is enough for the tie (all of them in the thorough tier up to 4000)
     nf_all = len(coq_f)
-    keep = sorted(rng.sample(range(nf_all), min(nf_all, 280 if quick else 4000)))
+    keep = sorted(rng.sample(range(nf_all), min(nf_all, 200 if quick else 4000)))
     coq_f = [coq_f[k] for k in keep]
     f_cases = [f_cases[k] for k in keep]
     fails = ctx.coq_eval("c28_frames", imports, coq_f, shard=max(20, (len(coq_f) + 7) // 8), pre=pre, checker=
